@@ -10,7 +10,9 @@ sequences the dumper itself can emit (``ESC [ n m`` with n in {0,1,2,5,25,31..35
 category Cc other than TAB/LF/CR may remain.  DNS flows are unpacked from wire bytes built by the private reference
 encoder (vf/ref/c50_dns.py), so their names/records are values the real parser produces from traffic.  An end-to-end leg feeds
 hostile HTTP/1 request and response heads (control bytes in every start-line token, incl. the version token, and in header
-names/values) through the real parser (net.http.http1.read) and prints the resulting flows / protocol-error flows.
+names/values) through the real parser (net.http.http1.read) and prints the resulting flows / protocol-error flows.  A terminal-log
+leg covers the other text mitmdump writes: ClientHellos with hostile SNI (incl. IPv6 literals with a hostile scope id) go through
+the real mitmproxy.tls.ClientHello, the real ClientTLSLayer.on_handshake_error and the real TermLogHandler.
 """
 import io
 import re
@@ -38,7 +40,7 @@ ENGINE = "direct"
 TECHNIQUE = "output-stream scan of the real Dumper addon under hostile flows"
 BUDGET = {"quick": (2000, 13), "thorough": (120_000, 200)}
 WORKERS = {"quick": 2, "thorough": 16}
-REQUIRED = ["no_control_chars", "fields_rendered", "wire_flows"]
+REQUIRED = ["no_control_chars", "fields_rendered", "wire_flows", "termlog_lines"]
 RULE = (
     "case = (flow type, dumper hook, set of attacker fields carrying a payload, flow_detail 1-4, showhost, styled on/off, "
     "default content view, body structure); payload = benign text + >=1 C0/ESC/DEL attack sequence (+ >=1 C1 sequence where "
@@ -47,6 +49,7 @@ RULE = (
     "the text the dumper wrote (the poisoned field was really rendered)"
 )
 ASSUMPTIONS = [
+    "'the text mitmdump writes' = the Dumper's flow output and the terminal log (TermLog); the property names TLS names and error messages, which only the terminal log prints",
     "control character = Unicode general category Cc (C0, DEL, C1) other than TAB/LF/CR",
     "styling added by mitmdump itself = SGR sequences ESC[<n>m with n in {0,1,2,5,25,31,32,33,34,35,94} (all that miniclick.style can emit for the dumper's style calls); attack payloads never use these",
     "the client peer address is supplied by the OS socket layer and is left benign; every other string the dumper prints (incl. http_version of request and response) is poisoned in hand-built flows",
@@ -77,6 +80,7 @@ FIELDS = {
     "qh": "req-http-version", "sh": "resp-http-version",
     # end-to-end leg: tokens of hostile HTTP/1 heads that went through the real parser (net.http.http1.read)
     "xm": "wire-method", "xp": "wire-target", "xv": "wire-req-version", "xn": "wire-req-header-name", "xu": "wire-req-header-value",
+    "ts": "tls-sni",
     "yv": "wire-resp-version", "yr": "wire-reason", "yn": "wire-resp-header-name", "yu": "wire-resp-header-value", "ye": "wire-parse-error",
 }
 
@@ -101,6 +105,12 @@ def payload(r, fid, c1=True, maxlen=None, ascii_only=False):
         if ascii_only:
             s = "".join(c for c in s if ord(c) < 128)
     return s
+
+
+def hostish(r, fid, **kw):
+    """host-like payload: sometimes an IPv6 literal whose scope id carries the attack (ipaddress accepts any text there)"""
+    p = payload(r, fid, **kw)
+    return "fe80::1%" + p.replace(" ", "") if r.random() < 0.35 else p
 
 
 def pbytes(r, fid, **kw):
@@ -190,11 +200,11 @@ def poison_http(r, f, fields):
     if "pa" in fields:
         rq.data.path = b"/p/" + pbytes(r, "pa") + b"?q=1"
     if "ho" in fields:
-        h = payload(r, "ho")
+        h = hostish(r, "ho")
         rq.data.host = h
         rq.data.authority = h.encode("utf-8") if r.random() < 0.5 else b""
     if "hh" in fields:
-        rq.headers["host"] = pbytes(r, "hh")
+        rq.headers["host"] = hostish(r, "hh").encode("utf-8")
     if "qn" in fields:
         rq.headers.fields = rq.headers.fields + ((pbytes(r, "qn"), b"v"),)
     if "qv" in fields:
@@ -232,7 +242,7 @@ def poison_http(r, f, fields):
     if "er" in fields:
         f.error = mflow.Error(payload(r, "er"))
     if "sa" in fields:
-        f.server_conn.address = (payload(r, "sa"), r.choice([80, 443, 53]))
+        f.server_conn.address = (hostish(r, "sa"), r.choice([80, 443, 53]))
     return info
 
 
@@ -384,7 +394,11 @@ def build_wire(r):
         return plain
 
     method = maybe("xm", r.choice([b"GET", b"POST", b"OPTIONS"]))
-    target = r.choice([b"/", b"/path?q=1", b"http://example.com/a", b"http://example.com:8080/"]) + maybe("xp", b"")
+    if r.random() < 0.15:
+        fields.add("xp")
+        target = b"http://[fe80::1%" + wtok(r, "xp").replace(b"]", b"").replace(b"/", b"") + b"]/a"  # hostile IPv6 scope id in the authority
+    else:
+        target = r.choice([b"/", b"/path?q=1", b"http://example.com/a", b"http://example.com:8080/"]) + maybe("xp", b"")
     version = maybe("xv", r.choice([b"HTTP/1.1", b"HTTP/1.1", b"HTTP/1.0"]), 0.45)
     req_lines = [method + b" " + target + b" " + version, b"Host: example.com"]
     for _ in range(r.randint(0, 3)):
@@ -417,6 +431,77 @@ def build_wire(r):
         hook = "error"
         info["e2e"] = "resp-rejected"
     return "wire", hook, f, fields, info
+
+
+TERMLOG_SGR = re.compile(r"\x1b\[(?:0|2|31|33|35|36)m")  # what log.MitmFormatter adds itself: cyan/yellow dim prefix, level colours
+
+
+def termlog_case(ctx, r, tctx):
+    """The other text mitmdump writes: its terminal log.  A ClientHello whose SNI carries the payload is parsed by the real
+    mitmproxy.tls.ClientHello; the real ClientTLSLayer.on_handshake_error produces the log command; the real TermLogHandler
+    formats it into a StringIO."""
+    import logging
+
+    from mitmproxy import tls as mtls
+    from mitmproxy.addons import termlog
+    from mitmproxy.proxy import commands as pcommands
+    from mitmproxy.proxy import context as pcontext
+    from mitmproxy.proxy.layers import tls as ltls
+    from vf.ref import tlshello
+    from vf.sansio import make_client
+
+    fields = set()
+    form = r.choice(["scope-id", "scope-id", "plain-hostile", "benign+server-address"])
+    if form == "scope-id":
+        sni = b"fe80::1%" + payload(r, "ts", c1=r.random() < 0.3, maxlen=200).replace(" ", "").encode("utf-8")
+        fields.add("ts")
+    elif form == "plain-hostile":
+        sni = payload(r, "ts", c1=False, maxlen=200, ascii_only=True).encode()
+        fields.add("ts")
+    else:
+        sni = None
+    hello = tlshello.build_client_hello(sni=sni, alpn=[b"h2"] if r.random() < 0.5 else None)
+    parsed = mtls.ClientHello(hello[4:])  # real parser decides whether the name is accepted as SNI
+    pctx = pcontext.Context(make_client(), tctx.options)
+    if form == "benign+server-address" or r.random() < 0.3:
+        pctx.server.address = (hostish(r, "sa"), 443)
+        fields.add("sa")
+    ltls.ServerTLSLayer(pctx)
+    lay = ltls.ClientTLSLayer(pctx)
+    lay.conn.sni = parsed.sni
+    err = r.choice(["('SSL routines', '', 'sslv3 alert bad certificate')", "connection closed", "('SSL routines', '', 'tlsv1 alert unknown ca')", "some other failure", "Cannot parse ClientHello: x"])
+    out = io.StringIO()
+    styled = r.random() < 0.5
+    h = termlog.TermLogHandler(out)
+    h.has_vt_codes = styled
+    h.formatter = __import__("mitmproxy.log", fromlist=["MitmFormatter"]).MitmFormatter(styled)
+    n = 0
+    for cmd in lay.on_handshake_error(err):
+        if isinstance(cmd, pcommands.Log):
+            rec = logging.LogRecord("mitmproxy.proxy.server", cmd.level, __file__, 1, cmd.message, (), None)
+            rec.client = ("192.0.2.10", 51234)
+            h.emit(rec)
+            n += 1
+    text = out.getvalue()
+    ctx.count("termlog_lines", n)
+    ctx.count("no_control_chars")
+    stripped = TERMLOG_SGR.sub("", text) if styled else text
+    rendered = sorted({m.group(1).lower() for m in MARK.finditer(text)} & fields)
+    if rendered:
+        ctx.count("fields_rendered", len(rendered))
+    by_field = {}
+    for m in re.finditer(r"[\x00-\x08\x0b\x0c\x0e-\x1f\x7f-\x9f]", stripped):
+        nxt = MARK.search(stripped, m.end(), m.end() + 64)
+        fid = nxt.group(1).lower() if nxt else (next(iter(fields)) if len(fields) == 1 else None)
+        by_field.setdefault(fid, []).append(m.group(0))
+    for fid, chars in by_field.items():
+        ctx.violation(
+            "control-char-in-terminal-log",
+            {"field": FIELDS.get(fid, fid), "sni_sent": sni, "sni_accepted": parsed.sni, "styled": styled, "chars": sorted({f"U+{ord(c):04X}" for c in chars}), "line": short(repr(stripped), 400)},
+            mechanism=classify("termlog", fid, chars),
+        )
+    ctx.seen("hooks", "termlog")
+    ctx.case(("termlog", form, parsed.sni is not None, tuple(rendered), styled, err[:12]), nontrivial=bool(rendered), sample={"hook": "termlog", "sni": sni, "accepted": parsed.sni, "out": short(repr(text), 300)})
 
 
 BUILDERS = [build_wire, build_wire, build_http, build_http, build_http, build_ws, build_ws, build_proto, build_proto, build_dns, build_dns]
@@ -460,6 +545,9 @@ def run(ctx):
         views = contentviews.registry.available_views()
         for i in ctx.cases():
             r = ctx.rng
+            if r.random() < 0.08:
+                termlog_case(ctx, r, tctx)
+                continue
             try:
                 kind, hook, f, fields, info = r.choice(BUILDERS)(r)
             except Exception as e:  # generator could not build (DNS name / HTTP head the real parser rejects): not a case
